@@ -1,0 +1,16 @@
+//go:build verif
+
+package icsim
+
+import "github.com/icon-project/goloop/icon/iiss"
+
+// Add-only accessor for the external verification harness (/verif). No behaviour.
+
+// VerifExtensionState returns a read-only IISS extension state of the simulator's last
+// finalized block (the object every query method of the simulator is built on).
+func VerifExtensionState(s Simulator) *iiss.ExtensionStateImpl {
+	if impl, ok := s.(*simulatorImpl); ok {
+		return impl.getReadonlyExtensionState()
+	}
+	return nil
+}
